@@ -86,7 +86,7 @@ func c06SetEq(model []string, impl []lockuptypes.PeriodLock) string {
 }
 
 func runC06(c *vk.Ctx) {
-	c.R.Rule = "cases = histories of LockTokens (new / add-to-existing), ExtendLockup, BeginUnlocking (full / partial → split), BeginUnlockingAll, SetRewardReceiverAddress, wrong-owner and invalid attempts, block-time jumps landing before / exactly at / after unlock end times, and matured-lock sweeps (real EndBlocker at heights divisible by 120; every 10th history runs 120 real consecutive blocks per sweep) by 4 owners over 3 denoms (one a strict prefix of another; in every fourth history a concentrated share denom, whose matured locks are burned by design; in every third a factory denom merely containing cl/pool) and 3 usual + up to 20 arbitrary durations; after every operation the module balance, LockedDenom(denom, d) for every used duration ±1ns and 0, 12 by-owner/denom/duration/time list queries and the module-wide by-denom keeper lists GetLocksDenom / GetLocksLongerThanDurationDenom / GetLocksPastTimeDenom (as sets), LockedByID and owner balance + locked conservation are compared with the lock book. distinct_nontrivial counts distinct (operation, outcome, #live locks bucket, #unlocking bucket, sweep mode) tuples."
+	c.R.Rule = "cases = histories of LockTokens (new / add-to-existing), ExtendLockup, BeginUnlocking (full / partial → split), BeginUnlockingAll, SetRewardReceiverAddress, wrong-owner and invalid attempts, block-time jumps landing before / exactly at / after unlock end times, and matured-lock sweeps (real EndBlocker at heights divisible by 120; every 10th history runs 120 real consecutive blocks per sweep) by 4 owners over 3 denoms (one a strict prefix of another; in every fourth history a concentrated share denom, whose matured locks are burned by design; in every third a factory denom merely containing cl/pool) and 3 usual + up to 20 arbitrary durations (one history in six starts with 24 locks of one denom under 24 distinct whole-hour durations, then fully unlocks, matures and sweeps every lock of a contiguous range of those durations, so that the per-denom accumulation tree has inner nodes that empty out); after every operation the module balance, LockedDenom(denom, d) for every used duration ±1ns and 0, 12 by-owner/denom/duration/time list queries and the module-wide by-denom keeper lists GetLocksDenom / GetLocksLongerThanDurationDenom / GetLocksPastTimeDenom (as sets), LockedByID and owner balance + locked conservation are compared with the lock book. distinct_nontrivial counts distinct (operation, outcome, #live locks bucket, #unlocking bucket, sweep mode) tuples."
 	nHist := c.N(120, 480)
 	opsPer := c.N(60, 250)
 	// "foo" is a strict prefix of "foox" (as gamm/pool/1 is of gamm/pool/10); "cl/pool/7" is a concentrated share
@@ -476,13 +476,68 @@ func runC06(c *vk.Ctx) {
 			return n
 		}
 
+		// "deep" histories (one in six, never with the unpayable owner) start with a scripted prelude: one denom is
+		// locked under 24 distinct durations (the per-denom accumulation tree then has inner nodes), every lock of a
+		// contiguous range of durations is fully unlocked, matures and is swept; the random operations follow
+		type c06Forced struct {
+			k      int
+			owner  int
+			denom  string
+			dur    time.Duration
+			lockID uint64
+			dt     time.Duration
+		}
+		deep := unpayable < 0 && i%6 == 2
+		deepDenom := denoms[r.Intn(len(denoms))]
+		deepPerm := make([]int, 24)
+		for j := range deepPerm {
+			deepPerm[j] = j + 1
+		}
+		for j := len(deepPerm) - 1; j > 0; j-- {
+			x := r.Intn(j + 1)
+			deepPerm[j], deepPerm[x] = deepPerm[x], deepPerm[j]
+		}
+		deepLo := 2 + r.Intn(12)
+		deepHi := deepLo + 3 + r.Intn(8)
+		deepPhase := 0
+		if deep {
+			mode += "+deep"
+		}
+		nextForced := func(step int) *c06Forced {
+			if !deep {
+				return nil
+			}
+			switch {
+			case step < 24:
+				return &c06Forced{k: 0, owner: step % len(owners), denom: deepDenom, dur: time.Duration(deepPerm[step]) * time.Hour}
+			case deepPhase == 0:
+				for _, l := range m.sorted() {
+					if l.denom == deepDenom && !l.unlocking() && l.dur >= time.Duration(deepLo)*time.Hour && l.dur <= time.Duration(deepHi)*time.Hour && l.dur%time.Hour == 0 {
+						return &c06Forced{k: 30, owner: l.owner, lockID: l.id}
+					}
+				}
+				deepPhase = 1
+				return &c06Forced{k: 80, dt: time.Duration(deepHi)*time.Hour + time.Second}
+			case deepPhase == 1:
+				deepPhase = 2
+				return &c06Forced{k: 99}
+			}
+			return nil
+		}
 		for step := 0; step < opsPer; step++ {
 			oi := r.Intn(len(owners))
 			if unpayable >= 0 && r.Intn(3) == 0 {
 				oi = unpayable
 			}
-			o := owners[oi]
 			k := r.Intn(100)
+			forced := nextForced(step)
+			if forced != nil {
+				k = forced.k
+				if forced.k != 80 && forced.k != 99 {
+					oi = forced.owner
+				}
+			}
+			o := owners[oi]
 			var op, outcome string
 			c.Eval(1)
 			live := m.sorted()
@@ -503,6 +558,9 @@ func runC06(c *vk.Ctx) {
 				op = "LockTokens"
 				d := denoms[r.Intn(len(denoms))]
 				du := durPool[r.Intn(len(durPool))]
+				if forced != nil {
+					d, du = forced.denom, forced.dur
+				}
 				amt := sdkmath.NewIntFromBigInt(r.BigMag(0, 30))
 				c.Logf("LockTokens(owner %d, %s%s, %s)", oi, amt, d, du)
 				res := ch.Exec(&lockuptypes.MsgLockTokens{Owner: o.Addr.String(), Duration: du, Coins: sdk.NewCoins(sdk.NewCoin(d, amt))})
@@ -543,11 +601,14 @@ func runC06(c *vk.Ctx) {
 			case k < 45:
 				op = "BeginUnlocking"
 				l := pick(func(l *c06Lock) bool { return l.owner == oi && !l.unlocking() })
+				if forced != nil {
+					l = m.locks[forced.lockID]
+				}
 				if l == nil {
 					continue
 				}
 				var coins sdk.Coins
-				partial := r.Intn(2) == 0 && l.amt.GT(sdkmath.OneInt())
+				partial := r.Intn(2) == 0 && l.amt.GT(sdkmath.OneInt()) && forced == nil
 				amt := l.amt
 				if partial {
 					amt = sdkmath.NewIntFromBigInt(r.BigBelow(l.amt.SubRaw(1).BigInt())).AddRaw(1)
@@ -615,12 +676,22 @@ func runC06(c *vk.Ctx) {
 				if r.Intn(3) == 0 {
 					nd = durPool[r.Intn(len(durPool))]
 				}
+				if r.Intn(8) == 0 {
+					nd = l.dur // a no-op extension
+				}
 				c.Logf("ExtendLockup(owner %d, id %d, %s -> %s)", oi, l.id, l.dur, nd)
 				res := ch.Exec(&lockuptypes.MsgExtendLockup{Owner: o.Addr.String(), ID: l.id, Duration: nd})
-				if nd <= l.dur {
+				if nd == l.dur {
+					// the statement does not say whether a no-op extension is refused or accepted: either way the lock
+					// and every index must be exactly as before, which the comparison after the operation decides
+					outcome = "same-duration-rejected"
+					if res.OK() {
+						outcome = "same-duration-accepted"
+					}
+				} else if nd < l.dur {
 					outcome = "rejected-not-longer"
 					if res.OK() {
-						c.Violate("C06.invalid_op_succeeded", sig(op), "ExtendLockup to a duration that is not longer succeeded")
+						c.Violate("C06.invalid_op_succeeded", sig(op), "ExtendLockup to a shorter duration succeeded")
 						return
 					}
 				} else {
@@ -715,6 +786,9 @@ func runC06(c *vk.Ctx) {
 					dt = durPool[r.Intn(len(durPool))]
 				default:
 					dt = time.Duration(r.I64n(int64(3 * 24 * time.Hour)))
+				}
+				if forced != nil {
+					dt = forced.dt
 				}
 				if dt < 0 {
 					dt = 0
